@@ -1427,4 +1427,154 @@ example : pcIsDone ((I2N.Trav.GlobalN.runStepsN gDuo (initState gDuo 2 []) repor
     ((I2N.Trav.GlobalN.runStepsN gDuo (initState gDuo 2 []) reportedRunOfGDuo).nd 1).results.map (·.status) = ["PASS"] := by
   decide +kernel
 
+/-! ### every selected test was run
+
+`Definite.selected g n`: copy `n` is a test the stateless branch of `default_run_decision` decides about — not the shared
+root, not a dry run, not flat, not a clone source, sets no state.  `Definite.Below g w n`: `n` is reachable from the shared
+root through children that worker `w` cares for (`relevant`: flat, or `w`'s id occurs in the name) — the copies `w` is
+responsible for.  Pre-parsed graphs (`initState g ncls store`, nothing hidden). -/
+
+theorem pc_done_of_isDone {pc : Pc} (h : pcIsDone pc = true) : pc = .done := by
+  cases pc <;> first | rfl | cases h
+
+open I2N.Trav.Term I2N.Trav.GlobalN I2N.Trav.Definite in
+/-- **all_selected_run.**  After ANY run (real workers, positive fuel, any outcomes) in which worker `w` has left through
+the shared root (`done`): every selected stateless copy `n` that `w` is responsible for (`Below g w n`, `n` not the root)
+has a result in its class — some copy `m` of the class of `n` (`m ∈ g.copies n`: `n` itself or a bridged copy) carries a
+result `r`: the test was executed, by `w` or by a worker whose copy is bridged to `w`'s.  The worker cannot leave while a
+leaf it is responsible for has no result.
+Why (`Definite.DInv`, `Definite.below_done`): the loop is left only when `isCleanupReady root w`; a child class enters the
+`droppedCleanup` register of a parent class for `w` only in the downward branch of the loop body after
+`next.should_run(w)` said "no" and `next` was cleanup-ready for `w` (`afterTraverse`); "no" for a selected stateless copy
+means `shared_results ≠ []` (`Definite.runDecision_false_selected`); registers and non-empty result lists only grow.  So
+readiness of the root descends along `Below`.
+Hypotheses: `graphWF`; `edgeSymB` (technical: the path invariant `PInv` — the tested node is `w`'s own copy — is proved for
+edge-symmetric graphs); `classInjB g w` — two copies of one class that both concern `w` are equal: the registers are per
+CLASS, so with two such copies "dropped" would not say WHICH copy was decided about (no parser builds that; same
+hypothesis as `dry_run_terminates`); `done` — a worker that is still inside or died (`failed`) has run nothing yet / leaves
+its leaves unrun (`nothing_run_before_the_end`).  Stateful copies (`sets ≠ []`) are not covered: their decision goes by the
+state scan, and "not run" then means "the state exists" (C01). -/
+theorem all_selected_run (g : Graph) (hwf : graphWF g = true) (hsym : edgeSymB g = true) (ncls : Nat)
+    (store : List (String × List (String × String))) (steps : List StepN)
+    (hreal : ∀ x ∈ steps, x.1 < g.workers.length) (hfuel : ∀ x ∈ steps, 0 < x.2.2)
+    (w : Nat) (hinj : classInjB g w = true)
+    (hdone : ((runStepsN g (initState g ncls store) steps).wd w).pc = .done)
+    (n : Nat) (hb : Below g w n) (hn : n ≠ g.root) (hsel : selected g n = true) :
+    ∃ m r, m ∈ g.copies n ∧ r ∈ ((runStepsN g (initState g ncls store) steps).nd m).results := by
+  have d := dinv_run hwf (edgeSymB_sound hsym) ncls store steps _ (.init []) (.init []) (DInv.init g ncls store) hreal hfuel
+  have h := (below_done (GraphWF.of_bool hwf) d w (classInjB_sound hinj) (d.done w hdone) n hb).2 hn hsel
+  obtain ⟨r, hr⟩ := List.exists_mem_of_ne_nil _ h
+  obtain ⟨m, hm, hr'⟩ := List.mem_flatMap.mp hr
+  exact ⟨m, r, hm, hr'⟩
+
+/-- `done` cannot be dropped from `all_selected_run` (trivially): before the end nothing need have run — in the initial
+state of `gDuo` the leaf of worker 0 is selected, below the root, and no copy of its class has a result -/
+theorem nothing_run_before_the_end :
+    I2N.Trav.Definite.selected gDuo 1 = true ∧ sharedResults gDuo (initState gDuo 2 []) 1 = [] ∧
+    pcIsDone ((initState gDuo 2 []).wd 0).pc = false := by decide
+
+/-- non-vacuity: in `gDuo` the leaves 1 (worker 0) and 2 (worker 1) are selected and below the root for their workers; after
+`fairRunOfGDuo` both workers are done.  Worker 1 never executed its own copy: the result is on worker 0's copy of the class. -/
+example : I2N.Trav.Term.classInjB gDuo 0 = true ∧ I2N.Trav.Term.classInjB gDuo 1 = true ∧ I2N.Trav.Definite.selected gDuo 1 = true ∧
+    I2N.Trav.Definite.selected gDuo 2 = true ∧
+    ((I2N.Trav.GlobalN.runStepsN gDuo (initState gDuo 2 []) fairRunOfGDuo).nd 2).results = [] ∧
+    ((I2N.Trav.GlobalN.runStepsN gDuo (initState gDuo 2 []) fairRunOfGDuo).nd 1).results.map (·.status) = ["PASS"] := by
+  decide +kernel
+example := all_selected_run gDuo (by decide) (by decide) 2 [] fairRunOfGDuo (by decide +kernel) (by decide +kernel) 1
+  (by decide)
+  (pc_done_of_isDone (by decide +kernel))
+  2 (.child ["vm1"] .root (by decide) (by decide)) (by decide) (by decide)
+
+open I2N.Trav.Term I2N.Trav.Global I2N.Trav.GlobalN I2N.Trav.Fair I2N.Trav.Definite in
+/-- **done_run_has_definite_results** (`_partial`: the hypotheses of `multi_worker_terminates_fair_partial`).  Pre-parsed
+acyclic graph without object roots, class hypotheses `classesOKB`, any number of workers, any outcomes, `fuel ≥ bound g`,
+no bump, FAIR with window `K ≥ 1`; `classInjB` for every real worker.  After ANY such run of at least
+`(24·Σ_n max(max_tries n, 1) + |workers| + 1)·K` resumes: some worker is `failed`, or all workers are `done` and
+(1) every selected stateless copy a worker is responsible for has a result in its class (`all_selected_run`), and
+(2) every UNKNOWN placeholder left anywhere belongs to an execution whose report never arrived (`no_unknown_at_end`).
+If moreover every resumption is given a status (`Reports`), (2) becomes: no placeholder is left — every result of the
+run is a definite one (`done_run_has_definite_results_reported`). -/
+theorem done_run_has_definite_results_partial (g : Graph) (hr : rankedB g = true) (hsym : edgeSymB g = true)
+    (hflat : noFlatB g = true) (hwf : graphWF g = true) (ncls : Nat)
+    (hcls : ∀ n, n < g.nodes.length → (g.node n).cls < ncls) (hroots : noRootsB g = true) (hcl : classesOKB g = true)
+    (hinj : ∀ w, w < g.workers.length → classInjB g w = true)
+    (store : List (String × List (String × String))) (K : Nat) (hK : 0 < K) (steps : List StepN)
+    (hreal : ∀ x ∈ steps, x.1 < g.workers.length) (hfuel : ∀ x ∈ steps, bound g ≤ x.2.2)
+    (hcalm : BumpFree g (initState g ncls store) steps) (hfair : FairW g K (initState g ncls store) steps)
+    (hlen : (24 * resultBound g + g.workers.length + 1) * K ≤ steps.length) :
+    (∃ v, v < g.workers.length ∧ ((runStepsN g (initState g ncls store) steps).wd v).pc = .failed) ∨
+    ((∀ v, v < g.workers.length → ((runStepsN g (initState g ncls store) steps).wd v).pc = .done) ∧
+     (∀ w, w < g.workers.length → ∀ n, Below g w n → n ≠ g.root → selected g n = true →
+        ∃ m r, m ∈ g.copies n ∧ r ∈ ((runStepsN g (initState g ncls store) steps).nd m).results) ∧
+     (∀ m, ∀ r ∈ ((runStepsN g (initState g ncls store) steps).nd m).results, r.status = "UNKNOWN" → 1 ≤ r.tag →
+        Abandoned g (initState g ncls store) steps m r.tag)) := by
+  have hfuel' : ∀ x ∈ steps, 0 < x.2.2 := fun x hx => by
+    have := hfuel x hx
+    unfold bound at this
+    omega
+  rcases multi_worker_terminates_fair_partial g hr hsym hflat hwf ncls hcls hroots hcl store K hK steps hreal hfuel hcalm
+    hfair hlen with hd | hf
+  · right
+    refine ⟨hd, fun w hw n hb hn hsel => ?_, fun m r hr hu ht => ?_⟩
+    · exact all_selected_run g hwf hsym ncls store steps hreal hfuel' w (hinj w hw) (hd w hw) n hb hn hsel
+    · exact no_unknown_at_end g hwf ncls store [] steps hreal hfuel' hd m (noRoots_spec hroots m) r hr hu ht
+  · exact Or.inl hf
+
+open I2N.Trav.Term I2N.Trav.Global I2N.Trav.GlobalN I2N.Trav.Fair I2N.Trav.Definite in
+/-- **done_run_has_definite_results_reported**: the same when every resumption is given a status — at the end of every
+sufficiently long fair run some worker is `failed`, or every selected stateless copy a worker is responsible for has, in
+its class, a DEFINITE result (not a placeholder: status `UNKNOWN` only if that is what the test reported). -/
+theorem done_run_has_definite_results_reported_partial (g : Graph) (hr : rankedB g = true) (hsym : edgeSymB g = true)
+    (hflat : noFlatB g = true) (hwf : graphWF g = true) (ncls : Nat)
+    (hcls : ∀ n, n < g.nodes.length → (g.node n).cls < ncls) (hroots : noRootsB g = true) (hcl : classesOKB g = true)
+    (hinj : ∀ w, w < g.workers.length → classInjB g w = true)
+    (store : List (String × List (String × String))) (K : Nat) (hK : 0 < K) (steps : List StepN)
+    (hreal : ∀ x ∈ steps, x.1 < g.workers.length) (hfuel : ∀ x ∈ steps, bound g ≤ x.2.2)
+    (hcalm : BumpFree g (initState g ncls store) steps) (hfair : FairW g K (initState g ncls store) steps)
+    (hlen : (24 * resultBound g + g.workers.length + 1) * K ≤ steps.length) (hrep : Reports steps) :
+    (∃ v, v < g.workers.length ∧ ((runStepsN g (initState g ncls store) steps).wd v).pc = .failed) ∨
+    (∀ w, w < g.workers.length → ∀ n, Below g w n → n ≠ g.root → selected g n = true →
+        ∃ m r, m ∈ g.copies n ∧ r ∈ ((runStepsN g (initState g ncls store) steps).nd m).results ∧
+          (r.status = "UNKNOWN" → r.tag = 0)) := by
+  have hfuel' : ∀ x ∈ steps, 0 < x.2.2 := fun x hx => by
+    have := hfuel x hx
+    unfold bound at this
+    omega
+  rcases done_run_has_definite_results_partial g hr hsym hflat hwf ncls hcls hroots hcl hinj store K hK steps hreal hfuel
+    hcalm hfair hlen with hf | ⟨hd, h1, _⟩
+  · exact Or.inl hf
+  · right
+    intro w hw n hb hn hsel
+    obtain ⟨m, r, hm, hr'⟩ := h1 w hw n hb hn hsel
+    exact ⟨m, r, hm, hr', fun hu => no_unknown_at_end_reported g hwf ncls store [] steps hreal hfuel' hrep
+      (fun v hv => by rw [hd v hv]; rfl) m (noRoots_spec hroots m) r hr' hu⟩
+
+/-- non-vacuity of `done_run_has_definite_results_partial`: `fairRunOfGDuo` meets the hypotheses -/
+example := done_run_has_definite_results_partial gDuo (by decide) (by decide) (by decide) (by decide) 2 (by decide)
+  (by decide) (by decide +kernel)
+  (by
+    intro w hw
+    have : w = 0 ∨ w = 1 := by
+      have : w < 2 := hw
+      omega
+    rcases this with h | h <;> rw [h] <;> decide)
+  [] 2 (by decide) fairRunOfGDuo (by decide +kernel) (by decide +kernel)
+  (I2N.Trav.Fair.bumpFree_of_B _ _ _ (by decide +kernel)) (by decide +kernel) (by decide +kernel)
+
+/-- a fair run of `gDuo` in which every resumption is given a status: `reportedRunOfGDuo`, then 146 resumes of the
+finished worker 0 (150 steps, window 2) -/
+def fairReportedRunOfGDuo : List I2N.Trav.GlobalN.StepN :=
+  reportedRunOfGDuo ++ List.replicate 146 (0, ⟨some "PASS", 1⟩, 82)
+
+example : I2N.Trav.Fair.FairW gDuo 2 (initState gDuo 2 []) fairReportedRunOfGDuo ∧
+    I2N.Trav.Fair.bumpFreeB gDuo (initState gDuo 2 []) fairReportedRunOfGDuo = true ∧
+    fairReportedRunOfGDuo.length = 150 := by decide +kernel
+example : I2N.Trav.Definite.Reports fairReportedRunOfGDuo := by
+  intro x hx
+  unfold fairReportedRunOfGDuo reportedRunOfGDuo at hx
+  rcases List.mem_append.mp hx with h | h
+  · simp only [List.mem_cons, List.not_mem_nil, or_false] at h
+    rcases h with h | h | h | h <;> rw [h] <;> simp
+  · rw [List.eq_of_mem_replicate h]; simp
+
 end I2N.Props.C02
